@@ -1588,18 +1588,21 @@ impl Type {
             Type::Unsigned(UnsignedNumType::U64) | Type::Signed(SignedNumType::I64) => 64,
             Type::Unsigned(UnsignedNumType::Unspecified)
             | Type::Signed(SignedNumType::Unspecified) => 32,
-            Type::Array(elem, size) => elem.size_in_bits_for_defs(prg, const_sizes) * size,
-            Type::ArrayConst(elem, size) => {
-                elem.size_in_bits_for_defs(prg, const_sizes) * const_sizes.get(size).unwrap()
-            }
-            Type::ArrayConstExpr(elem, size_expr) => {
-                elem.size_in_bits_for_defs(prg, const_sizes)
-                    * resolve_const_expr_usize(size_expr, const_sizes)
-            }
+            // (sizes saturate, so that a type that is too large to be represented fails to be
+            // allocated instead of wrapping around to a small size)
+            Type::Array(elem, size) => elem
+                .size_in_bits_for_defs(prg, const_sizes)
+                .saturating_mul(*size),
+            Type::ArrayConst(elem, size) => elem
+                .size_in_bits_for_defs(prg, const_sizes)
+                .saturating_mul(*const_sizes.get(size).unwrap()),
+            Type::ArrayConstExpr(elem, size_expr) => elem
+                .size_in_bits_for_defs(prg, const_sizes)
+                .saturating_mul(resolve_const_expr_usize(size_expr, const_sizes)),
             Type::Tuple(values) => {
-                let mut size = 0;
+                let mut size: usize = 0;
                 for v in values {
-                    size += v.size_in_bits_for_defs(prg, const_sizes)
+                    size = size.saturating_add(v.size_in_bits_for_defs(prg, const_sizes))
                 }
                 size
             }
@@ -1618,9 +1621,9 @@ pub(crate) fn struct_size(
     prg: &TypedProgram,
     const_sizes: &HashMap<String, usize>,
 ) -> usize {
-    let mut total_size = 0;
+    let mut total_size: usize = 0;
     for (_, field_ty) in struct_def.fields.iter() {
-        total_size += field_ty.size_in_bits_for_defs(prg, const_sizes);
+        total_size = total_size.saturating_add(field_ty.size_in_bits_for_defs(prg, const_sizes));
     }
     total_size
 }
@@ -1649,15 +1652,15 @@ pub(crate) fn enum_max_size(
 ) -> usize {
     let mut max = 0;
     for variant in enum_def.variants.iter() {
-        let mut sum = 0;
+        let mut sum: usize = 0;
         for field in variant.types().unwrap_or_default() {
-            sum += field.size_in_bits_for_defs(prg, const_sizes);
+            sum = sum.saturating_add(field.size_in_bits_for_defs(prg, const_sizes));
         }
         if sum > max {
             max = sum;
         }
     }
-    max + enum_tag_size(enum_def)
+    max.saturating_add(enum_tag_size(enum_def))
 }
 
 pub(crate) fn unsigned_to_bits(n: u64, size: usize, bits: &mut Vec<bool>) {
